@@ -19,6 +19,7 @@ var streams = map[string]streamFn{
 	"dbfault": runDbFault,
 	"rio":     runRio,
 	"sst":     runSst, // C15 + C03: stream-writer programs x fault masks, every loader read back
+	"sstdmg":  runSstDmg, // C09: damaged data files of small tables, verify on load / on read
 	"skip":    runSkip,
 	"riodmg":  runRioDmg,
 	"pq":      runPq,
